@@ -414,14 +414,21 @@ impl Utf16LeStandIn {
 
 // ---- BrtWsDim ([MS-XLSB] 2.4.820): rwFirst u32 @0, rwLast u32 @4, colFirst u32 @8, colLast u32 @12
 //@@ item src/lib.rs struct Dimensions keep_attrs
-//@@ fn src/xlsb/cells_reader.rs parse_dimensions props=C03 entry ret=r
+/// the worksheet dimensions a BrtWsDim payload stores
+pub open spec fn dims_ok(p: Seq<u8>, d: Dimensions) -> bool {
+    d.start.0 as int == le32(p.subrange(0, 4)) && d.start.1 as int == le32(p.subrange(8, 12))
+    && d.end.0 as int == le32(p.subrange(4, 8)) && d.end.1 as int == le32(p.subrange(12, 16))
+}
+// (not an entry point: its only caller, XlsbCellsReader::new, passes `&buf[..16]` -- the unchecked slice is an obligation of `new`)
+//@@ fn src/xlsb/cells_reader.rs parse_dimensions props=C03 ret=r
 //@@ sig
+    requires
+        buf@.len() >= 16,
     ensures
-        //# C03.dim_start
-        buf@.len() >= 16 ==> r.start.0 as int == le32(buf@.subrange(0, 4)) && r.start.1 as int == le32(buf@.subrange(8, 12)),
-        //# C03.dim_end
-        buf@.len() >= 16 ==> r.end.0 as int == le32(buf@.subrange(4, 8)) && r.end.1 as int == le32(buf@.subrange(12, 16)),
+        //# C03.dim_fields
+        dims_ok(buf@, r),
 //@@ end
+proof fn witness_parse_dimensions() { let b = Seq::<u8>::new(16, |i: int| 0u8); assert(b.len() >= 16); }
 
 // ---- Cell ([MS-XLSB] 2.5.9): column u32 @0, iStyleRef 24 bits @4, flags @7
 //@@ item src/formats.rs enum CellFormat keep_attrs
@@ -504,6 +511,7 @@ impl<'a> XlsbCellsReader<'a> {
     pub closed spec fn fmts(&self) -> Seq<CellFormat> { self.formats@ }
     pub closed spec fn strs(&self) -> Seq<String> { self.strings@ }
     pub closed spec fn f1904(&self) -> bool { self.is_1904 }
+    pub closed spec fn dims(&self) -> Dimensions { self.dimensions }
 }
 
 // TRUSTED: A-float -- IEEE-754 f64 division is a total, deterministic function (`/` on f64 never panics); vstd leaves
@@ -662,6 +670,18 @@ pub open spec fn good_cell(sc: Scan, nstr: int) -> bool { sc is Cell && sc->typ 
 pub open spec fn is_date_fmt(f: Option<CellFormat>) -> bool { f == Some(CellFormat::DateTime) || f == Some(CellFormat::TimeDelta) }
 
 //@@ impl src/xlsb/cells_reader.rs XlsbCellsReader
+//@@ fn src/xlsb/cells_reader.rs XlsbCellsReader::new props=C03 entry ret=r
+//@@ sig
+    ensures
+        //# C03.new_row0
+        r is Ok ==> r->Ok_0.cur_row() == 0,
+        //# C03.new_frame
+        r is Ok ==> r->Ok_0.fmts() == formats@ && r->Ok_0.strs() == strings@ && r->Ok_0.f1904() == is_1904,
+        // the dimensions are those of a whole BrtWsDim (0x0094) record of the stream (when it has its 16 bytes)
+        //# C03.new_dimensions
+        r is Ok ==> exists|k: nat, t: Seq<u8>| #[trigger] boundary(iter.rem(), k, t) && rec_ok(t) && rec_typ(t) == 0x0094
+            && (rec_len(t) >= 16 ==> dims_ok(rec_payload(t), r->Ok_0.dims())),
+//@@ end
 //@@ fn src/xlsb/cells_reader.rs XlsbCellsReader::next_cell props=C03 entry ret=r
 //@@ sig
     ensures
